@@ -122,6 +122,41 @@ def tool_matrix(full, sel):
     return base + [ext[sel % len(ext)], ext[(sel * 7 + 3) % len(ext)]]
 
 
+# ------------------------------------------------------------------ symbol faults in golden sources (E11)
+_IDENT = re.compile(rb"[A-Za-z_][A-Za-z0-9_]{2,}")
+
+
+def symfault_positions(t):
+    """(line index, start, end) of every identifier in an operand field of golden source t."""
+    out = []
+    for li, ln in enumerate(t.src.split(b"\n")):
+        body = ln.split(b";")[0]
+        if not body.strip():
+            continue
+        # skip the label (text at column 0) and the mnemonic
+        m = re.match(rb"^(\S+)?[ \t]+(\S+)", body)
+        if not m:
+            continue
+        for im in _IDENT.finditer(body, m.end()):
+            out.append((li, im.start(), im.end()))
+    return out
+
+
+def symfault_apply(t, pos, variant, rng_pick):
+    lines = t.src.split(b"\n")
+    li, a, b = pos
+    ln = lines[li]
+    if variant == 1:
+        lab = re.match(rb"^([A-Za-z_][A-Za-z0-9_.]*):?", ln)
+        new = lab.group(1) if lab else b"nothere_q"  # the statement refers to itself
+    elif variant == 2:
+        new = rng_pick  # some other identifier of the same file: wrong kind of thing in this place
+    else:
+        new = b"nothere_q"
+    lines[li] = ln[:a] + new + ln[b:]
+    return b"\n".join(lines), lines[li]
+
+
 # ------------------------------------------------------------------ statements that read further files (E10)
 FR_NUMS = [None, "0", "1", "2", "99", "100", "101", "200", "-1", "-2", "2147483647", "2147483648", "4294967280",
            "4294967295", "4294967296", "9223372036854775807", "-9223372036854775808", "65535", "65536", "70000"]
@@ -431,6 +466,19 @@ def plan(tier, seed):
     n10 = 60000 if thorough else 4000
     for i in range(0, n10, 200):
         cases.append({"gen": "toolopt", "seed": mix(seed, "topt", i), "n": 200})
+    # E11 symbol faults: an identifier in an operand field of a golden source becomes undefined / self-referential /
+    # another identifier of the same file; every position in the thorough tier, a seeded sample otherwise
+    for t in tests:
+        if len(t.src) > 60000:
+            continue
+        npos = len(symfault_positions(t))
+        if not npos:
+            continue
+        if thorough:
+            for lo in range(0, npos, 250):
+                cases.append({"gen": "symfault", "test": t.name, "lo": lo, "hi": min(npos, lo + 250)})
+        else:
+            cases.append({"gen": "symfault", "test": t.name, "sample": 20, "seed": mix(seed, "symf", t.name)})
     # E10 statements that read further files: BINCLUDE offset x length x file size, INCLUDE of odd files
     nfr = len(fileread_cases())
     for lo in range(0, nfr, 150):
@@ -490,6 +538,49 @@ def sc_key(prog, sc):
     return int.from_bytes(h.digest(), "little")
 
 
+# label without colon: a definition, not an address
+_DEFLINE = re.compile(rb"^([A-Za-z_][\w.]*)[ \t]+([A-Za-z][\w.]*)[ \t]+(.*)$")
+
+
+def selfref_definitions(src):
+    """(line indexes, statement names) of definitions whose operand mentions the symbol being defined (x BIT x+1)."""
+    idx, ops = [], set()
+    for i, ln in enumerate(src.split(b"\n")):
+        m = _DEFLINE.match(ln.split(b";")[0])
+        if m and m.group(2).upper() not in (b"EQU", b"SET", b"EVAL", b"MACRO", b"FUNCTION") \
+                and re.search(rb"(?<![\w.])" + re.escape(m.group(1)) + rb"(?![\w.])", m.group(3), re.I):
+            idx.append(i)
+            ops.add(m.group(2).upper().decode("latin1"))
+    return idx, ops
+
+
+def refine_pass_hang(sim, prog, sc, cls):
+    """A run that exhausts the line budget through passes: if the source holds self-referential definitions and the
+    same source without exactly those lines ends within the budget, the class names them (the call site of the
+    finding); otherwise the class stays as it is."""
+    if prog != "asl" or cls != "asl/hang/line-budget":
+        return cls
+    main = [k for k in sc.get("disk", {}) if k.endswith(".asm")]
+    if len(main) != 1:
+        return cls
+    src = sc["disk"][main[0]]
+    src = src if isinstance(src, bytes) else src.encode("latin1")
+    idx, ops = selfref_definitions(src)
+    if not idx:
+        return cls
+    lines = src.split(b"\n")
+    for i in idx:
+        lines[i] = b""
+    sc2 = dict(sc)
+    sc2["disk"] = dict(sc["disk"])
+    sc2["disk"][main[0]] = b"\n".join(lines)
+    r2, san2 = sim.run(prog, sc2, "asan")
+    c2 = oracle.classify(prog, r2, san2)
+    if c2 and "/hang/" in c2:
+        return cls
+    return cls + "/self-referential-definition/" + "+".join(sorted(ops))
+
+
 def run_one(sim, acc, prog, sc, origin, kind, nontrivial_off=None):
     r, san = sim.run(prog, sc, "asan")
     acc.runs += 1
@@ -508,6 +599,8 @@ def run_one(sim, acc, prog, sc, origin, kind, nontrivial_off=None):
         if oracle.classify(prog, r2, san2) != cls:
             acc.bump(acc.probes, "cpu_limit_not_reproduced")
             r, san, cls = r2, san2, oracle.classify(prog, r2, san2)
+    if cls == "asl/hang/line-budget":
+        cls = refine_pass_hang(sim, prog, sc, cls)
     if cls and cls.endswith("/hang/cpu-limit") and any(v["class"] == cls for v in acc.violations):
         # an earlier input of this chunk already stands as a violation of this class (it was not exempted by its caller)
         raise RepeatedHangs()
@@ -899,6 +992,24 @@ def _run_case(sim, case, acc):
             sc = sc_tool(prog, argv, b, {"/w/g.p": refs["z80"]})
             run_one(sim, acc, prog, sc, "E9 %s %s" % (name, " ".join(argv)), "tool-options")
         acc.sample = {"space": "E9", "n": case["n"]}
+    elif g == "symfault":
+        t = corpus.by_name(case["test"])
+        pos = symfault_positions(t)
+        rng = Rng(case.get("seed", mix(1, t.name, case.get("lo", 0))))
+        idx = sorted(rng.sample(range(len(pos)), min(case["sample"], len(pos)))) if "sample" in case else range(case["lo"], case["hi"])
+        idents = sorted({t.src.split(b"\n")[l][a:b] for l, a, b in pos})
+        for i in idx:
+            variant = (i * 7 + pos[i][0]) % 3
+            src, newline = symfault_apply(t, pos[i], variant, idents[(i * 31 + 7) % len(idents)])
+            sc = dict(argv=list(t.flags) + ["-q", "-i", "/sim/inc", "/w/mut.asm", "-o", "/w/mut.p", "-shareout", "/w/mut.h"],
+                      cwd="/sim/tests/" + t.name, disk={"/w/mut.asm": src},
+                      env={"LANG": "C", "ASL_VERIF_MAX_LINES": "400000"}, max_disk=32 << 20, cpu=30)
+            r, san, cls = run_one(sim, acc, "asl", sc, "symbol fault %s line %d: %s" % (t.name, pos[i][0] + 1, newline.decode("latin1").strip()), "symbol-fault")
+            if cls and "hang" in cls and may_not_terminate(src):
+                acc.violations = [v for v in acc.violations if v["class"] != cls]
+                acc.seen_cls.discard(cls)
+                acc.bump(acc.probes, "hang_ignored_while_or_recursive_macro")
+        acc.sample = {"space": "E11 symbol faults", "golden": t.name, "positions": len(pos)}
     elif g == "fileread":
         stmts = fileread_cases()
         extra = {"/w/" + k: v for k, v in list(FR_BLOBS.items()) + list(FR_INCS.items())}
